@@ -696,3 +696,66 @@ package server
 //@   set-at-call Collection.Nearby#1 nbTree = sw.col.spatial
 //@   loop 2 invariant [all-within-radius] maxDist > 0 ==> forall(j, offOf(sw), idx2 + offOf(sw), rtDist(nbTree, j) <= maxDist)
 //@   loop 2 on-stop [stops-only-beyond-radius] (maxDist > 0 && dist > maxDist) || lastPushed == idx2
+
+// ---- keyspace commands against the map model (C01, pilot: DEL, DROP, RENAME/RENAMENX) ---------------------
+// Model: ks = *s.cols : key -> collection, and for a collection c its id map c.objs : id -> object (the view proved for
+// Collection in C19). A collection exists iff it holds at least one object. A command that answers with an error
+// changes nothing.
+//@ ghost macro ks(s) = *s.cols
+//@ ghost macro colsUntouched() = allint(c, astype(c, "collection.Collection").objs == old(astype(c, "collection.Collection").objs))
+//@ ghost macro ksInj(s) = allstr(a, allstr(b, a != b && (*s.cols)[a] != nil ==> (*s.cols)[a] != (*s.cols)[b]))
+//@ ghost macro ksNonEmpty(s) = allstr(k, (*s.cols)[k] != nil ==> (*s.cols)[k].objects + (*s.cols)[k].nobjects > 0)
+//@ func retwerr
+//@   modifies nothing
+//@   ensures result2 == err
+//@ func Server.groupDisconnectObject
+//@   assumed
+//@   requires s != nil
+//@   modifies *s.groupHooks, *s.groupObjects
+//@ func Server.groupDisconnectCollection
+//@   assumed
+//@   requires s != nil
+//@   modifies *s.groupHooks, *s.groupObjects
+//@ func Server.cmdDEL
+//@   frame-by-effects
+//@   uses sum.nonneg
+//@   entry-assume registriesNonNil(s) && allstr(k, (*s.cols)[k] != nil ==> colInv((*s.cols)[k])) && ksNonEmpty(s) && ksInj(s)
+//@   requires s != nil && msg != nil
+//@   modifies steps
+//@   ensures [error-changes-nothing] result2 != nil ==> *s.cols == old(*s.cols) && colsUntouched()
+//@   ensures [del.no-such-key] result2 == nil && old(*s.cols)[msg.Args[1]] == nil ==> *s.cols == old(*s.cols) && colsUntouched() && !result1.updated
+//@   ensures [del.no-such-id] result2 == nil && old(*s.cols)[msg.Args[1]] != nil && old(old(*s.cols)[msg.Args[1]].objs)[msg.Args[2]] == nil ==> *s.cols == old(*s.cols) && colsUntouched() && !result1.updated
+//@   ensures [del.present] result2 == nil && old(*s.cols)[msg.Args[1]] != nil && old(old(*s.cols)[msg.Args[1]].objs)[msg.Args[2]] != nil ==> result1.updated && result1.obj == old(old(*s.cols)[msg.Args[1]].objs)[msg.Args[2]] && old(*s.cols)[msg.Args[1]].objs == store(old(old(*s.cols)[msg.Args[1]].objs), msg.Args[2], nil)
+//@   ensures [del.present.others] result2 == nil ==> allint(c, c != old(*s.cols)[msg.Args[1]] ==> astype(c, "collection.Collection").objs == old(astype(c, "collection.Collection").objs))
+//@   ensures [del.present.keyspace] result2 == nil && old(*s.cols)[msg.Args[1]] != nil && old(old(*s.cols)[msg.Args[1]].objs)[msg.Args[2]] != nil ==> *s.cols == ite(old(*s.cols)[msg.Args[1]].objects + old(*s.cols)[msg.Args[1]].nobjects == 0, store(old(*s.cols), msg.Args[1], nil), old(*s.cols))
+//@   ensures [exists-iff-nonempty] ksNonEmpty(s)
+//@   ensures [one-collection-per-key] ksInj(s)
+//@   ensures [reply] result2 == nil && msg.OutputType == RESP ==> result0 == respInt(ite(result1.updated, 1, 0))
+//@ func Server.cmdDROPop
+//@   frame-by-effects
+//@   requires s != nil
+//@   modifies steps
+//@   ensures result == old(*s.cols)[key] && *s.cols == store(old(*s.cols), key, nil) && colsUntouched()
+//@ func Server.cmdDROP
+//@   frame-by-effects
+//@   entry-assume ksNonEmpty(s) && ksInj(s)
+//@   requires s != nil && msg != nil
+//@   modifies steps
+//@   ensures [error-changes-nothing] result2 != nil ==> *s.cols == old(*s.cols) && colsUntouched()
+//@   ensures [drop.model] result2 == nil ==> *s.cols == store(old(*s.cols), msg.Args[1], nil) && colsUntouched() && result1.updated == (old(*s.cols)[msg.Args[1]] != nil)
+//@   ensures [exists-iff-nonempty] ksNonEmpty(s)
+//@   ensures [one-collection-per-key] ksInj(s)
+//@   ensures [reply] result2 == nil && msg.OutputType == RESP ==> result0 == respInt(ite(result1.updated, 1, 0))
+//@ func Server.cmdRENAME
+//@   frame-by-effects
+//@   entry-assume registriesNonNil(s) && ksNonEmpty(s) && ksInj(s)
+//@   requires s != nil && msg != nil
+//@   modifies steps
+//@   ensures [error-changes-nothing] result2 != nil ==> *s.cols == old(*s.cols) && colsUntouched()
+//@   ensures [rename.objects-untouched] colsUntouched()
+//@   ensures [rename.moved] result2 == nil && result1.updated ==> *s.cols == store(store(old(*s.cols), msg.Args[1], nil), msg.Args[2], old(*s.cols)[msg.Args[1]])
+//@   ensures [rename.nx-kept] result2 == nil && !result1.updated ==> *s.cols == old(*s.cols)
+//@   ensures [rename.when] result2 == nil ==> old(*s.cols)[msg.Args[1]] != nil && result1.updated == (old(*s.cols)[msg.Args[2]] == nil || lower(msg.Args[0]) != "renamenx")
+//@   ensures [exists-iff-nonempty] ksNonEmpty(s)
+//@   ensures [one-collection-per-key] ksInj(s)
+//@   ensures [reply] result2 == nil && msg.OutputType == RESP ==> result0 == ite(lower(msg.Args[0]) != "renamenx", respSimple("OK"), respInt(ite(result1.updated, 1, 0)))
